@@ -20,8 +20,9 @@ const (
 )
 
 func (w *W) proofByY(y string) (int, *TProof) {
+	// hex is case-insensitive: another spelling names the same point
 	for i, p := range w.Proofs {
-		if p.Y == y {
+		if strings.EqualFold(p.Y, y) {
 			return i, p
 		}
 	}
@@ -96,7 +97,7 @@ func (w *W) QueryStates(ys []string, viaHTTP bool) {
 	}
 	for k, y := range ys {
 		s := states[k]
-		if s.Y != y {
+		if !strings.EqualFold(s.Y, y) {
 			w.viol("C15", "state-check-order", "%s: entry %d answers for another Y", where, k)
 			continue
 		}
@@ -111,7 +112,11 @@ func (w *W) QueryStates(ys []string, viaHTTP bool) {
 			continue
 		}
 		if s.State.String() != exp {
-			w.viol("C15", fmt.Sprintf("state-check-state/model=%s/got=%s", exp, s.State), "%s: entry %d (p%d) reported %s, model %s", where, k, n, s.State, exp)
+			sp := ""
+			if p != nil && p.Y != y {
+				sp = "/Y-in-upper-case-hex"
+			}
+			w.viol("C15", fmt.Sprintf("state-check-state/model=%s/got=%s%s", exp, s.State, sp), "%s: entry %d (p%d) reported %s, model %s", where, k, n, s.State, exp)
 		}
 		if p != nil && p.St == Spent && s.Witness != wit {
 			w.viol("C15", "state-check-witness", "%s: p%d spent with witness %q, reported %q", where, n, wit, s.Witness)
